@@ -36,6 +36,11 @@ Definition plan_early (sh : shape) (I : dimg) : bool :=
   (grp_present sh SPlan GBypass && status_eqb (ist I (OChecks SPlan GBypass)) Completed)
   || group_failed sh I SPlan GPre || group_failed sh I SPlan GPost.
 
+(* the first four clauses: what the C09 theorem needs (when fixPlan returns at once Recovery goes straight to End and
+   nothing runs, whatever the blocks look like) *)
+Definition img_wf0 (sh : shape) (I : dimg) : bool :=
+  forallb (fun bb => block_wf I (fst bb) (snd bb)) (indexed (sh_blocks sh)).
+
 Definition img_wf (sh : shape) (I : dimg) : bool :=
   forallb (fun bb => block_wf I (fst bb) (snd bb)) (indexed (sh_blocks sh))
   && (negb (plan_early sh I)
